@@ -71,6 +71,9 @@ func CheckCtxTrace(toks []string, info CtxInfo) []Finding {
 			if x == "up|E" {
 				break
 			}
+			if x == "up2" && info.UpFails[cx] {
+				continue // a later up command after a failed one: not determined
+			}
 			if x != "up|S" {
 				if info.UpFails[cx] && count("up|E") == 0 {
 					break // a failing up has no end token; handled below
@@ -166,7 +169,7 @@ func CheckCtxTrace(toks []string, info CtxInfo) []Finding {
 			state := "idle"
 			for i, x := range seq {
 				switch {
-				case x == "up|S" || x == "up|E" || x == "down":
+				case x == "up|S" || x == "up|E" || x == "up2" || x == "down":
 				case x == "cb":
 					if state != "idle" {
 						add("context-before-order", "context %s: `before` at position %d while a task execution is open: %v", cx, i, seq)
